@@ -276,6 +276,83 @@ pub fn cancel_main(_args: &[String]) -> i32 {
     0
 }
 
+/// `gvh tasktrace`: runs the requests like `gvh cancel` and prints, for every task of the thread-pool runtime that was
+/// scheduled meanwhile, the sequence of `ScheduleState` transitions logged by the cfg(glaredb_verif) hook:
+///   case <n> tasktrace <kind>:<running pending completed canceled as 0/1>:<error written 0/1> ...
+#[cfg(feature = "internals")]
+pub fn tasktrace_main(_args: &[String]) -> i32 {
+    use glaredb_rt_native::runtime::ThreadedNativeExecutor;
+    use glaredb_rt_native::verif_hooks;
+    let tokio_rt = new_tokio_runtime_for_io().unwrap();
+    let stdin = std::io::stdin();
+    let stdout = std::io::stdout();
+    let mut case = 0usize;
+    for line in stdin.lock().lines() {
+        let Ok(line) = line else { break };
+        let req: Value = match serde_json::from_str(&line) {
+            Ok(v) => v,
+            Err(_) => continue,
+        };
+        let threads = req["threads"].as_u64().unwrap_or(4) as usize;
+        let partitions = req["partitions"].as_u64().unwrap_or(4);
+        let delay = req["delay_ms"].as_i64().unwrap_or(-1);
+        let query = req["query"].as_str().unwrap_or("SELECT 1").to_string();
+        let executor = ThreadedNativeExecutor::try_new_with_num_threads(threads).unwrap();
+        let engine = SingleUserEngine::try_new(executor, NativeSystemRuntime::new(tokio_rt.handle().clone())).unwrap();
+        verif_hooks::take_events();
+        let res = tokio_rt.block_on(async {
+            engine.session().query(&format!("SET partitions TO {partitions}")).await?.output.collect().await?;
+            let mut q = engine.session().query(&query).await?;
+            let handle = q.output.query_handle();
+            let canceller = if delay >= 0 {
+                Some(std::thread::spawn(move || {
+                    std::thread::sleep(Duration::from_millis(delay as u64));
+                    handle.cancel();
+                }))
+            } else {
+                None
+            };
+            let r = q.output.collect().await;
+            if let Some(c) = canceller {
+                c.join().ok();
+            }
+            r
+        });
+        std::thread::sleep(Duration::from_millis(30));
+        drop(engine);
+        std::thread::sleep(Duration::from_millis(10));
+        let events = verif_hooks::take_events();
+        // one trace per task: events are grouped by the task's address, a "new" event starts a new task (addresses get reused)
+        let mut traces: Vec<(usize, Vec<String>)> = Vec::new();
+        let mut open: std::collections::HashMap<usize, usize> = std::collections::HashMap::new();
+        for e in &events {
+            if e.kind == "new" {
+                open.insert(e.task, traces.len());
+                traces.push((e.task, Vec::new()));
+                continue;
+            }
+            let idx = match open.get(&e.task) {
+                Some(i) => *i,
+                // a task of an earlier request that is still running (its trace started before this window): skip
+                None => continue,
+            };
+            traces[idx].1.push(format!("{}:{}:{}", e.kind, e.after.iter().map(|b| if *b { '1' } else { '0' }).collect::<String>(), if e.error_set { 1 } else { 0 }));
+        }
+        let mut o = stdout.lock();
+        writeln!(o, "query {} outcome={} tasks={} events={}", req["id"], if res.is_ok() { "rows" } else { "err" }, traces.len(), events.len()).ok();
+        for (_t, evs) in traces {
+            if evs.is_empty() {
+                continue;
+            }
+            writeln!(o, "case {case} tasktrace {}", evs.join(" ")).ok();
+            case += 1;
+        }
+        writeln!(o, "done {}", req["id"]).ok();
+        o.flush().ok();
+    }
+    0
+}
+
 pub fn main(_args: &[String]) -> i32 {
     std::panic::set_hook(Box::new(|info| {
         eprintln!("PANIC {}", info.to_string().lines().take(2).collect::<Vec<_>>().join(" "));
